@@ -110,3 +110,10 @@ pub trait ControllerFactory {
 }
 
 const BASE_DATAGRAM_SIZE: u64 = 1200;
+
+#[cfg(feature = "__verif-hooks")]
+#[allow(missing_docs, unreachable_pub, dead_code, unused_imports, unused_qualifications)]
+pub mod verif {
+    use super::*;
+    include!(concat!(env!("QUINN_VERIF_HOOKS"), "/proto/congestion.rs"));
+}
